@@ -172,6 +172,45 @@ def stepLine (ws : List String) : String :=
     | some file =>
       let parsed : Option Nat := if tp.startsWith "ok:" then ((tp.drop 3).toString).toNat? else none
       showRes toString (registryLoad file (utf8 == "1") parsed)
+  | "walletdir" :: names =>
+    match names.mapM unhex with
+    | some ns =>
+      let idx := walletFiles (ns.map fun n => (n, utf8Valid n))
+      "ok " ++ (if idx.isEmpty then "-" else ",".intercalate (idx.map toString))
+    | none => "bad-op"
+  | "walletsel" :: input :: names =>
+    match unhex input, names.mapM unhex with
+    | some input, some ns => showRes hex (walletSelection input ns)
+    | _, _ => "bad-op"
+  | ["loadkey", _, kind, content] =>
+    match unhex content with
+    | some c =>
+      let plain := kind == "plain" || kind == "both"
+      let enc := kind == "enc" || kind == "both"
+      -- the harness keeps encrypted contents below salt+nonce (or non-hex), so the AEAD is never reached
+      showRes hex (loadPrivateKey plain enc c (utf8Valid c)
+        (fun s => decryptKey (fun _ _ _ _ => none) utf8Valid s [112, 119]))
+    | none => "bad-op"
+  | ["loadwallet", _, kind, content, key] =>
+    match unhex content with
+    | some c =>
+      let plain := kind == "plain" || kind == "both"
+      let enc := kind == "enc" || kind == "both"
+      let verdict : Option Bytes := if key.startsWith "ok:" then some (bytesOf ((key.drop 3).toString)) else none
+      match loadWallet plain enc c (utf8Valid c)
+          (fun s => decryptKey (fun _ _ _ _ => none) utf8Valid s [112, 119]) (fun _ => verdict) with
+      | .ok a => "ok " ++ String.ofList (a.map fun b => Char.ofNat b)
+      | .err _ => "err"
+      | .panic _ => "panic"
+    | none => "bad-op"
+  | ["logformat", s] =>
+    match unhex s with
+    | some s => (match logFormatParse s with | some n => s!"ok {n}" | none => "err")
+    | none => "bad-op"
+  | ["logdest", s] =>
+    match unhex s with
+    | some s => s!"ok {logDestParse s}"
+    | none => "bad-op"
   | ["regsave", _, _, la, lb, nb] =>
     match la.toNat?, lb.toNat?, nb.toNat? with
     | some la, some lb, some nb =>
@@ -210,6 +249,9 @@ def searchCandidates : List String := Id.run do
   for s in ["0-65535", "1-2", "-", "", "1", "1-2-3"] do
     let bs : Bytes := s.toUTF8.toList.map UInt8.toNat
     if (portRangeParse bs).isPanic then out := out ++ [s!"portparse {hex bs}"]
+  -- a wallet file holding something that is not a private key
+  if (loadWallet true false [120] true (fun _ => .err ()) (fun _ => none)).isPanic then
+    out := out ++ [s!"loadwallet {hex (bytesOf "0x52908400098527886E0F7030069857D2E4169EE7")} plain {hex (bytesOf "not-a-private-key")} x"]
   -- saving a short registry over a long one must leave exactly the short one
   if (saveSaveLoad 200 100 0).1 ≠ 100 then out := out ++ ["regsave 2,2,40,1 0,0,0,0"]
   let cedge : List Nat := [0, 1, 2147483647, 2147483648, 4294967294, 4294967295]
